@@ -27,5 +27,8 @@ Print Assumptions SRC_inventory_%s.
     if name == "cargo":
         o = o.replace("pinned inventory of indextree/src/cargo.rs: every trait impl with its methods, every derive list,\n   every static / const / macro-generated item (macro_rules! arms are read with their metavariables substituted).",
                       "the three cargo manifests (workspace, indextree, indextree-macros) line by line without the descriptive\n   metadata: features and what they switch on, dependencies, profiles (overflow checks, panic strategy), lints.")
+    if name == "files":
+        o = o.replace("pinned inventory of indextree/src/files.rs: every trait impl with its methods, every derive list,\n   every static / const / macro-generated item (macro_rules! arms are read with their metavariables substituted).",
+                      "the set of source files of the two crates and the absence of build scripts: every file listed here is read by\n   rs2coq (translated or pinned); a new file, a removed file or a build.rs changes this list.")
     open(os.path.join(out, "INV%s.v" % name), "w").write(o)
     print("wrote INV%s.v" % name)
